@@ -11,8 +11,11 @@ inputs where they do not hold (impure sub-expression evaluated before the select
 covered by the oracle only and counted (`*_theorem_applies`).
 
 Per input: assignment-free RGen programs (closures, loops over lists, match, if, functions); targets = pure
-sub-expressions (literals, variables, operators, parentheses, list / tuple literals, calls of string_repr / Some),
-sampled per program, every enclosing construct (toplevel, function body, if branch, for body, match arm, closure body).
+sub-expressions (literals, variables, operators, parentheses, list / tuple literals, calls of string_repr / Some, closure
+literals, if / match / for with pure parts), sampled per program, every enclosing construct (toplevel, function body,
+if branch, for body, match arm, closure body); plus shadowing templates that exercise the free-variable analysis.
+The schema includes "the new function's parameters are exactly the free local variables of the selection, in order of
+first use", computed by the Lean model with the language's lexical scoping (`expectedParams`).
 * Validator: the Lean driver matches the two REAL parser trees against the schema (`hoist_check`: `let n = e` inserted
   immediately before the enclosing statement IN THE SAME BLOCK, only the selected occurrence replaced, `n` fresh;
   `funext_check`: new toplevel function whose body is e, the occurrence replaced by the call with the parameters in
@@ -27,7 +30,11 @@ Failure keys (fixed; tool + enclosing construct of the selection, never the inpu
   C20/crash, C20/generator,
   C20/extract-variable/{refused,wrong-text,does-not-parse,behaviour-changed}/<ctx>,
   C20/extract-function/{refused,does-not-parse,behaviour-changed}/<ctx>
-  with <ctx> in: toplevel fun-body if-branch for-body while-body match-arm closure-body.
+  with <ctx> in: toplevel fun-body if-branch for-body while-body match-arm closure-body (random programs: the construct
+  enclosing the selection) and, for the shadowing templates (an inner binder of the selection has the name of an
+  enclosing local that another part of the selection reads; every arm / branch is executed):
+  shadow/match-arm-payload shadow/arm-let shadow/if-branch-let shadow/closure-param shadow/for-variable
+  shadow/local-named-like-function.
 """
 import os
 import re
@@ -42,7 +49,14 @@ VNAME, FNAME = "nv_fresh", "nf_fresh"
 PURE_CALLEES = {"string_repr", "Some", "Ok", "Err"}
 
 
+def pure_block(b):
+    return all(is_pure(x) for x in b[3:])
+
+
 def is_pure(e):
+    """Side-effect free: literals, variables, operators, parentheses, list / tuple literals, calls of string_repr /
+    enum constructors, closure literals, and if / match / for whose parts and blocks are pure (blocks may bind with
+    `let`). Must agree with `Extract.pureE` (the driver reports it)."""
     k = e[0]
     if k in ("int", "str", "var"):
         return True
@@ -54,8 +68,58 @@ def is_pure(e):
         return all(is_pure(x) for x in e[5:])
     if k == "call":
         f = e[5]
+        if f[0] == "paren" and f[5][0] == "lambda":       # a closure literal called on the spot
+            return pure_block(f[5][7]) and all(is_pure(x) for x in e[6:])
         return f[0] == "var" and f[5][1] in PURE_CALLEES and all(is_pure(x) for x in e[6:])
+    if k == "let":
+        return is_pure(e[7])
+    if k == "if":
+        return is_pure(e[5]) and pure_block(e[6]) and (e[7] == "noelse" or pure_block(e[7]))
+    if k == "for":
+        return is_pure(e[6]) and pure_block(e[7])
+    if k == "match":
+        return is_pure(e[5]) and all(pure_block(c[3]) for c in e[6:])
+    if k == "lambda":
+        return pure_block(e[7])
     return False
+
+
+# ------------------------------------------------------------------------- shadowing shapes (free-variable analysis)
+SHADOW_SHAPES = {
+    # an inner binder of the selection shadows an enclosing local that ANOTHER part of the selection reads
+    "match-arm-payload": ["match o { Some(%(w)s) => { %(w)s + 1 } None => { %(w)s } }",
+                          "match o { None => { %(w)s } Some(%(w)s) => { %(w)s + 1 } }",
+                          "match o { Some(%(w)s) => { %(w)s + %(v)s } None => { %(w)s * 2 } }"],
+    "arm-let": ["match o { Some(q) => { let %(w)s = q + 1\n    %(w)s } None => { %(w)s } }",
+                "match o { None => { %(w)s } Some(q) => { let %(w)s = q\n    %(w)s + %(v)s } }"],
+    "if-branch-let": ["(if %(v)s > 5 { let %(w)s = 1\n    %(w)s } else { 0 }) + %(w)s",
+                      "if %(v)s > 5 { let %(w)s = 1\n    %(w)s } else { %(w)s }",
+                      "[if %(v)s > 5 { let %(w)s = 1\n    %(w)s } else { 0 }, %(w)s]"],
+    "closure-param": ["[(fun(%(w)s) { %(w)s + 1 })(%(v)s), %(w)s]",
+                      "(fun(%(w)s) { %(w)s + 1 })(%(w)s) + %(w)s",
+                      "[%(w)s, (fun(%(w)s) { %(w)s * 3 })(%(v)s)]"],
+    "for-variable": ["match o { Some(q) => { for %(w)s in [q] { let z9 = %(w)s }\n    %(w)s } None => { %(w)s + 1 } }",
+                     "[if %(v)s > 5 { for %(w)s in [1] { let z9 = %(w)s }\n    %(w)s } else { 0 }, %(w)s]"],
+    "local-named-like-function": ["helper + %(v)s", "[helper, %(w)s]"],
+}
+
+
+def gen_shadow_program(rng):
+    """A function with the locals v (parameter) and w (let); the selection is one expression in which an inner binder
+    (match payload, let in an arm / branch, closure parameter, for variable) has the name of an enclosing local that
+    another part of the selection reads; the function is called so that EVERY arm / branch runs."""
+    shape = rng.choice(sorted(SHADOW_SHAPES))
+    tmpl = rng.choice(SHADOW_SHAPES[shape])
+    v, w = rng.sample(["v", "w", "x", "y", "a", "b"], 2)
+    sel = tmpl % dict(v=v, w=w)
+    pre = "let helper = %s + 3\n  " % v if shape == "local-named-like-function" else ""
+    src = ("fun helper(k) {\n  k + 100\n}\n"
+           "fun pick(o, %(v)s) {\n  let %(w)s = %(v)s * 2\n  %(pre)s%(sel)s\n}\n"
+           "println(string_repr(pick(Some(1), 10)))\nprintln(string_repr(pick(None, 10)))\n"
+           "println(string_repr(pick(Some(7), 1)))\nprintln(string_repr(pick(None, 1)))\n"
+           "println(string_repr(helper(1)))\n") % dict(v=v, w=w, sel=sel, pre=pre)
+    start = src.index(sel, src.index("let %s = " % w) + 1)
+    return src, "shadow/" + shape, (start, start + len(sel))
 
 
 def collect(tree_items):
@@ -131,6 +195,11 @@ def run(ctx):
     progs = [RC.gen_program(rng, size=rng.choice([15, 28, 40]), assign=False, closures=rng.random() < 0.7)
              for _ in range(nprog)]
     srcs = [p for p, _ in progs]
+    forced = {}
+    for _ in range(ctx.scale(120, 1500)):
+        src, shape, span = gen_shadow_program(rng)
+        forced[len(srcs)] = (shape, span)
+        srcs.append(src)
     n = len(srcs)
     r = ctx.garden_batch(["astq " + hexs(s) for s in srcs] + ["astx " + hexs(s) for s in srcs] +
                          [RC.run_line(s) for s in srcs])
@@ -148,7 +217,7 @@ def run(ctx):
         t = RC.Tree(astq[i])
         cands = []
         for e, parent, stmt, cx in collect(t.items):
-            if not is_pure(e) or e[0] == "paren" and False:
+            if not is_pure(e) or e[0] == "let":
                 continue
             if parent is not None and parent[0] == "paren":
                 continue          # the tool takes the parentheses with it: select the paren node instead
@@ -157,6 +226,17 @@ def run(ctx):
             if e[0] == "var" and (e[5][1] in t.fun_names or e[5][1] in ("println", "print", "string_repr", "True", "False", "None")):
                 continue
             cands.append((e, parent, stmt, cx))
+        if i in forced:
+            shape, span = forced[i]
+            hit = [c for c in cands if (int(c[0][3]), int(c[0][4])) == span]
+            if not hit:
+                ctx.fail("C20/generator", "the shadowing selection is not a pure expression node", src=s, span=list(span))
+                continue
+            for tool in ("extract_variable", "extract_function"):
+                c = (hit[0][0], hit[0][1], hit[0][2], shape)
+                jobs.append((tool, i, c))
+                ctx_hist[tool + "/" + shape] = ctx_hist.get(tool + "/" + shape, 0) + 1
+            continue
         by_ctx = {}
         for c in cands:
             by_ctx.setdefault(c[3], []).append(c)
@@ -166,6 +246,8 @@ def run(ctx):
             rng.shuffle(rest)
             chosen = (chosen + rest)[:per] if len(chosen) <= per else rng.sample(chosen, per)
             for c in chosen:
+                if tool == "extract_variable" and c[0][0] == "lambda":
+                    continue      # the tool declines a closure literal as the selection itself (no violation)
                 jobs.append((tool, i, c))
                 ctx_hist[tool + "/" + c[3]] = ctx_hist.get(tool + "/" + c[3], 0) + 1
     ctx.log("programs %d, extract jobs %d" % (n, len(jobs)))
@@ -211,6 +293,7 @@ def run(ctx):
     ax2, run2 = dict(zip(texts, r2[:m])), dict(zip(texts, r2[m:]))
     scratch = scratch_dir()
     cli_n = 0
+    oracle_failed = set()
     lines, meta = [], []
     for j, (tool, i, c, txt) in enumerate(checked):
         e, parent, stmt, cx = c
@@ -227,6 +310,7 @@ def run(ctx):
             c1 = RC.cli_run(ctx, srcs[i], scratch, "b%d" % j)
             c2 = RC.cli_run(ctx, txt, scratch, "a%d" % j)
             if c1[1] != c2[1] or c1[0] != c2[0] or a[0] != "ok":
+                oracle_failed.add((tool, i, e[1]))
                 ctx.fail("C20/%s/behaviour-changed/%s" % (tname, cx), "the original runs without error, the result "
                          "prints or ends differently", before_run=b, after_run=a, **rep)
         op = "hoist_check" if tool == "extract_variable" else "funext_check"
@@ -242,7 +326,11 @@ def run(ctx):
             ctx.disagree(tool + "_check", inp, x, "tool output accepted by the oracle")
             continue
         chk, pure, hits, fresh, safe, params = mm.groups()
-        if chk != "1" or pure != "1" or hits != "1" or fresh != "1":
+        if chk != "1" and pure == "1" and hits == "1" and fresh == "1" and (tool, i, e[1]) in oracle_failed:
+            # the schema (parameters = free local variables, …) rejects an output that the oracle rejects too:
+            # one defect, reported by the oracle with its replay
+            vstat["schema_rejects_what_the_oracle_rejects"] = vstat.get("schema_rejects_what_the_oracle_rejects", 0) + 1
+        elif chk != "1" or pure != "1" or hits != "1" or fresh != "1":
             ctx.disagree(tool + "_check", inp, "schema=%s Pure=%s nodes-with-id=%s fresh=%s" % (chk, pure, hits, fresh),
                          "tool output accepted by the oracle; generator says the selection is pure")
         else:
